@@ -79,7 +79,8 @@ func runScenario(c *vh.Ctx, sc scenario) {
 	recovered := false
 	pokes := 0
 	for time.Now().Before(deadline) {
-		if sc.poke && r.Dials() <= len(sc.plans) && r.Dials() >= 2 {
+		inScript := !(r.Dials() > len(sc.plans) && scriptedGone(r, len(sc.plans)))
+		if sc.poke && inScript && r.Dials() >= 2 {
 			// a reconnect loop is in flight (at least one re-dial has been refused): an "ensure open" call
 			if o := r.Open(pokes%2 == 0, 50*time.Millisecond); o.Class != "already" {
 				c.Fail("C11: Open on an open, reconnecting connection did not return ErrAlreadyOpen", desc()+": "+o.Class)
@@ -88,7 +89,7 @@ func runScenario(c *vh.Ctx, sc scenario) {
 			time.Sleep(2 * time.Millisecond)
 			continue
 		}
-		if sc.quiet && r.Dials() <= len(sc.plans) {
+		if sc.quiet && inScript {
 			time.Sleep(time.Millisecond)
 			continue
 		}
@@ -97,27 +98,24 @@ func runScenario(c *vh.Ctx, sc scenario) {
 			c.Fail("C11: SendDataMessage panicked", desc())
 			break
 		}
-		if ok && r.Dials() > len(sc.plans) {
+		// recovered = a round trip succeeded while every scripted (failing) generation is gone and
+		// all scripted plans have been consumed, i.e. on a generation served by a Normal peer
+		if ok && servedByFresh(r, len(sc.plans)) && scriptedGone(r, len(sc.plans)) {
 			recovered = true
 			break
 		}
-		if ok && r.Dials() == len(sc.plans) && len(sc.plans) > 0 {
-			// the last scripted plan may itself allow a round trip (a cut placed beyond the traffic
-			// actually generated): keep the link busy so that the cut offset is reached or linktest runs
-			time.Sleep(2 * time.Millisecond)
-			if !sc.wantDrops {
-				recovered = true
-				break
-			}
-			continue
+		if ok && !sc.wantDrops {
+			recovered = true
+			break
 		}
 		time.Sleep(time.Millisecond)
 	}
 	if !recovered {
 		c.Fail("C11: no working Selected session after the link failures (no successful round trip on a fresh generation within 8 s)",
 			fmt.Sprintf("%s plans=%d dials=%d state=%v", desc(), len(sc.plans), r.Dials(), r.Conn.State()))
-	} else if r.Conn.State() != hsms.SelectedState {
-		c.Fail("C11: round trip succeeded but State() is not Selected", desc())
+	} else if st := r.Conn.State(); st != hsms.SelectedState {
+		time.Sleep(20 * time.Millisecond)
+		c.Fail("C11: round trip succeeded but State() is not Selected", fmt.Sprintf("%s state=%v later=%v dials=%d", desc(), st, r.Conn.State(), r.Dials()))
 	}
 	// Reconnects() = successful re-establishments: every transport connection that came up after the
 	// first one that came up (active: successful dials; passive: successful listens). When Open's own
@@ -187,6 +185,26 @@ func runScenario(c *vh.Ctx, sc scenario) {
 	line := "E " + desc() + " | " + toks
 	c.Case(line, line, true)
 	c.Count("e2e/" + strings.SplitN(sc.tag, ":", 2)[0] + "/" + roleName(sc.active))
+}
+
+// servedByFresh: a data primary reached (and was answered by) a peer beyond the scripted plans.
+func servedByFresh(r *lc.Rig, n int) bool {
+	for _, p := range r.Peers() {
+		if p.N >= n && p.DataSeen.Load() > 0 {
+			return true
+		}
+	}
+	return false
+}
+
+// scriptedGone: every peer that served one of the first n (scripted) plans has closed its end.
+func scriptedGone(r *lc.Rig, n int) bool {
+	for _, p := range r.Peers() {
+		if p.N < n && p.ClosedAt().IsZero() {
+			return false
+		}
+	}
+	return true
 }
 
 // checkGaps: dial timestamps against the backoff sleeps computed with the REAL nextBackoffDelay.
